@@ -12,6 +12,8 @@ WORDS = ["alpha", "β-eta", "ga mma", "😀x", "d:e", "#h", "@at", "|p", "\\b", 
          "And then", "Feature: x", "Examples:", "Rule: r", "Background:", "# language: fr", "a\tb", "(a|b)+", "$1", "\\1", "[x]",
          "e\u0301", "\u00a0nb", "x\u2003y", "𝔘", "<h1>", "<>", "<<h1>>", "\\n", "%s", "{0}", "\u200b", "ü", "日本語", "\x0b", "\r"]
 SAFE_WORDS = [w for w in WORDS if w not in ("\r",)]
+# examples header names: ordinary ones and ones hostile to pattern-based substitution
+HDRS = ["h1", "h2", "h3", "a(b", "a.b", "$x", "\\\\", "<h1>", "[x]", "+", "*", "a\\|b", "(?i)", "{2}", "^", "h1)", "é", "😀", "x y"]
 
 
 class Gen:
@@ -79,7 +81,7 @@ class Gen:
 
     def step(self):
         role = self.r.choice(["given", "when", "then", "and", "but"])
-        self.out.append(self.ind() + self.kw(role) + self.r.choice([self.txt(), "<h1> and <h2>", "x", ""]) + self.pad())
+        self.out.append(self.ind() + self.kw(role) + self.r.choice([self.txt(), "<h1> and <h2>", "x", "", "<%s> <%s>" % (self.r.choice(HDRS), self.r.choice(HDRS))]) + self.pad())
         self.noise()
         c = self.r.random()
         if c < 0.25:
@@ -94,7 +96,8 @@ class Gen:
         if self.r.random() < 0.85:
             n = self.r.randint(1, 3)
             i = self.ind()
-            self.out.append(i + "|" + "|".join(" h%d " % (k + 1) for k in range(n)) + "|")
+            hs = ["h%d" % (k + 1) for k in range(n)] if self.r.random() < 0.6 else self.r.sample(HDRS, n)
+            self.out.append(i + "|" + "|".join(" %s " % h for h in hs) + "|")
             self.noise()
             for _ in range(self.r.randint(0, 3)):
                 self.out.append(i + "|" + "|".join(self.pad() + self.cell() + self.pad() for _ in range(n)) + "|")
